@@ -210,6 +210,43 @@ func compareRun(src string) (*fw.Fail, cmpInfo) {
 		return nil, cmpInfo{"rejected:" + diag.Class}
 	}
 	// accepted by the reference
+	if len(diags) > 0 && strings.HasSuffix(diags[0].Rest, ": jump too long") {
+		// implementation limit (a short-circuit operand of more than 65535 bytes of code): the reference has
+		// no notion of code size, but the diagnostic must sit at the end of the right operand of an and/or
+		// whose operand is huge
+		ok := false
+		var walk func(n *ref.Node)
+		walk = func(n *ref.Node) {
+			if n == nil {
+				return
+			}
+			if (n.Kind == ref.NAnd || n.Kind == ref.NOr) && n.R.End-n.R.Start > 20000 && n.R.End == diags[0].Off {
+				ok = true
+			}
+			walk(n.L)
+			walk(n.R)
+		}
+		var walkS func(ss []*ref.Stmt)
+		walkS = func(ss []*ref.Stmt) {
+			for _, st := range ss {
+				walk(st.X)
+				walkS(st.Body)
+			}
+		}
+		walkS(prog.Stmts)
+		if !ok {
+			return fw.Failf("'jump too long' reported just after the last token of the oversized and/or operand", "%q (offset %d)", diags[0].Raw, diags[0].Off), cmpInfo{"limit"}
+		}
+		if r.Err == nil || r.Blocks != nil || r.Binding != nil {
+			return fw.Failf("no results on rejection", "%s", r.Summary()), cmpInfo{"limit"}
+		}
+		for _, d := range diags {
+			if msg := checkDiagForm(src, toks, lexfail, d); msg != "" {
+				return fw.Failf("diagnostic designates a token of the source", "%s", msg), cmpInfo{"limit"}
+			}
+		}
+		return nil, cmpInfo{"rejected:limit-jump"}
+	}
 	if len(diags) > 0 {
 		return fw.Failf("accepted, no diagnostic", "diagnostics: %q err=%v", r.Log, r.Err), cmpInfo{"accepted"}
 	}
